@@ -66,6 +66,12 @@ class CallMixin:
                 if v.ty == NONE:
                     return mk_bool(False)
                 return Val(BOOL, z3.And(v.t > 0, v.t < st.alloc))
+            if nm == "cls" and st.spec and "cls" not in st.env:
+                # cls("pkg.mod.Class"): the class object (specifications cannot import the program's modules)
+                r = self.world.lookup(e.args[0].value)
+                if not isinstance(r, front.ClassInfo):
+                    raise EngineError(f"cls({e.args[0].value!r}): not a class")
+                return Val(FN, ("class", r))
             if nm == "old_objects_unchanged" and st.spec:
                 # frame invariant: every object that existed on entry still has its entry value in the named fields
                 base = st.old if st.old is not None else st
@@ -294,7 +300,11 @@ class CallMixin:
         c = self.pick_contract(fi, env)
         if c is not None and fi.qualname != self.cur_fn_real() and not st.spec \
                 and fi.qualname not in getattr(self, "force_inline", ()):
-            return self.call_contract(fi, c, env, st, node)
+            cc = getattr(self, "cur_contract", None) or {}
+            mutual = c.get("rec_group") is not None and c.get("rec_group") == cc.get("rec_group")
+            if mutual and (c.get("decreases") is None or cc.get("decreases") is None):
+                raise Unsupported(f"mutual recursion {self.cur_fn_real()} -> {fi.qualname} without termination measures")
+            return self.call_contract(fi, c, env, st, node, recursive=mutual)
         if c is not None and fi.qualname == self.cur_fn_real() and c.get("decreases") is not None and not st.spec:
             return self.call_contract(fi, c, env, st, node, recursive=True)
         if c is not None and fi.qualname == self.cur_fn_real() and not st.spec:
@@ -438,6 +448,21 @@ class CallMixin:
     def construct_ext(self, ci, args, kwargs, st, node):
         return None
 
+    def coerce_val(self, v, ty, st, what, line=None):
+        """Value `v` seen at the declared type `ty` of a contract (parameter or result).  An Optional where the plain
+        type is declared gives the obligation `is not None`; tuples are coerced component-wise."""
+        if v.ty == ty:
+            return v
+        if v.ty.name == "Opt" and v.ty.args[0] == ty:
+            self.oblige(st, what, z3.Not(self.is_none(v, st)), clause=f"{what.rsplit(':', 1)[-1]} is not None", site=line)
+            st.assume(z3.Not(self.is_none(v, st)))
+            return Val(ty, v.t) if is_reflike(ty) else Val(ty, opt_of(v.ty).val(v.t))
+        if ty.name == "Tuple" and v.ty.name == "Tuple" and len(ty.args) == len(v.ty.args):
+            return Val(ty, [self.coerce_val(x, a, st, what, line) for x, a in zip(v.t, ty.args)])
+        if ty.name == "Tuple":
+            return v
+        return from_sort_term(to_sort_term(v, ty), ty)
+
     # -- contracts at call sites ---------------------------------------------------------------
     def call_contract(self, fi, c, env, st, node=None, recursive=False):
         if st.ghost.get("__pure_ctx__") and c.get("functional") and set(c["modifies"]) <= {"alloc"}:
@@ -459,15 +484,8 @@ class CallMixin:
                     rows = v.x.get("rows") or st.ghost.get("g:cursor:" + v.t.sexpr())
                     if rows is not None:
                         v = rows            # a cursor passed where its rows are iterated
-                if v.ty.name == "Opt" and v.ty.args[0] == ty:
-                    # an Optional passed where the contract declares the plain type: "is not None" is part of the
-                    # callee's precondition
-                    self.oblige(st, f"call:{short}/arg-type:{p}", z3.Not(self.is_none(v, st)),
-                                clause=f"{p} is not None", site=getattr(node, "lineno", None))
-                    st.assume(z3.Not(self.is_none(v, st)))
-                    v = Val(ty, v.t) if is_reflike(ty) else Val(ty, opt_of(v.ty).val(v.t))
                 try:
-                    penv[p] = v if v.ty == ty else (from_sort_term(to_sort_term(v, ty), ty) if ty.name != "Tuple" else v)
+                    penv[p] = self.coerce_val(v, ty, st, f"call:{short}/arg-type:{p}", getattr(node, "lineno", None))
                 except Unsupported:
                     raise Unsupported(f"argument {p} of {fi.qualname}: {v.ty} is not {ty}")
             else:
@@ -481,7 +499,8 @@ class CallMixin:
             self.oblige(st, f"call:{short}/requires#{k}", goal, clause=r, site=line)
             st.assume(goal)
         if recursive and c.get("decreases"):
-            cur = self.spec_val(c["decreases"], self.entry_env, self.entry_state, old=self.entry_state)
+            cc = getattr(self, "cur_contract", None) or c
+            cur = self.spec_val(cc.get("decreases") or c["decreases"], self.entry_env, self.entry_state, old=self.entry_state)
             new = self.spec_val(c["decreases"], penv, st, old=st)
             self.oblige(st, f"call:{short}/decreases", z3.And(new.t >= 0, new.t < cur.t), clause=c["decreases"], site=line)
         pre = st.copy()
